@@ -78,7 +78,7 @@ pub struct TraceCfg {
     /// script is used up (or names an opcode that is not a candidate) the
     /// loop draws from its entropy source as usual.
     pub script: Vec<u8>,
-    /// upper bound on emissions; exceeding it panics with `FUEL_PANIC`.
+    /// upper bound on emissions (body steps + tail + STOP); exceeding it panics with `FUEL_PANIC`.
     pub fuel: Option<u64>,
     /// upper bound on draws from the entropy source; exceeding it panics with
     /// `DRAW_FUEL_PANIC` (turns a loop that keeps drawing into a visible failure).
@@ -272,6 +272,7 @@ pub(crate) fn on_body_step(g: &Generator, chosen: OpcodeKind) {
     SINK.with(|s| {
         let mut s = s.borrow_mut();
         if s.on {
+            burn(&mut s);
             s.trace.body_steps += 1;
             let valid = std::mem::take(&mut s.pending_valid);
             if s.cfg.record_steps {
@@ -287,7 +288,10 @@ pub(crate) fn on_emit_opcode(g: &Generator, opcode: OpcodeKind) {
     SINK.with(|s| {
         let mut s = s.borrow_mut();
         if s.on {
-            burn(&mut s);
+            // body emissions are counted once per step in `on_body_step`
+            if s.phase >= PHASE_TAIL {
+                burn(&mut s);
+            }
             if s.phase >= PHASE_TAIL {
                 if s.phase == PHASE_TAIL {
                     s.trace.tail_steps += 1;
